@@ -38,6 +38,9 @@ def build(H, tier, seed):
     M.vc_mv_delegations(H, methods_binary=['rp', '__and__', '__rand__'],
                         methods_unary=['hodge', 'unhodge', 'polarity', 'unpolarity'])
     T.duality_lemmas(H, tier)
+    from contracts import inverse_c as I
+    I.vc_products_generic(H, tier, only_ops=('rp', 'op'))
+    I.vc_unary_generic(H, tier, only_ops=('hodge', 'unhodge', 'polarity', 'unpolarity'))
     from contracts import dispatch_c as D
     D.vc_binary_chain(H)
     D.vc_unary_chain(H)
